@@ -39,7 +39,7 @@ PROFILE = S.GENERAL.but(
 
 
 def budget(tier):
-    return dict(examples=4000 if tier == 'quick' else 150000)
+    return dict(examples=4000 if tier == 'quick' else 60000)
 
 
 def strategy(tier):
